@@ -48,7 +48,8 @@ from psyclone.psyir.frontend.fparser2 import (
     Fparser2Reader, TYPE_MAP_FROM_FORTRAN)
 from psyclone.psyir.nodes import (
     BinaryOperation, Call, Container, CodeBlock, DataNode, IntrinsicCall,
-    Literal, Operation, Range, Routine, Schedule, UnaryOperation)
+    Literal, OMPNowaitClause, Operation, Range, Routine, Schedule,
+    UnaryOperation)
 from psyclone.psyir.symbols import (
     ArgumentInterface, ArrayType, ContainerSymbol, DataSymbol, DataTypeSymbol,
     GenericInterfaceSymbol, IntrinsicSymbol, PreprocessorInterface,
@@ -1683,12 +1684,18 @@ class FortranWriter(LanguageWriter):
         result = f"{self._nindent}!${node.begin_string()}"
 
         clause_list = []
+        end_clause_list = []
         for clause in node.clauses:
             val = self._visit(clause)
             # Some clauses return empty strings if they should not
             # generate any output (e.g. private clause with no children).
             if val != "":
-                clause_list.append(val)
+                if isinstance(clause, OMPNowaitClause):
+                    # In Fortran the nowait clause belongs to the directive
+                    # that ends the construct (OpenMP 4.5, 2.7.3).
+                    end_clause_list.append(val)
+                else:
+                    clause_list.append(val)
         # Add a space only if there are clauses
         if len(clause_list) > 0:
             result = result + " "
@@ -1700,6 +1707,8 @@ class FortranWriter(LanguageWriter):
 
         end_string = node.end_string()
         if end_string:
+            if end_clause_list:
+                end_string = end_string + " " + ", ".join(end_clause_list)
             result = result + f"{self._nindent}!${end_string}\n"
         return result
 
